@@ -18,7 +18,7 @@ RULE = ("random values nested to depth <=6 over list, tuple (0/1/n elements), di
 ASSUMPTIONS = ["eval namespace maps the constructors and the text \"<class 'int'>\" (Python's own repr of a "
                "default_factory) back to the type",
                "string leaves avoid the literal text '... +' so abbreviation markers can be counted"]
-REQUIRED = ["mon.node_rerendered", "mon.eval_back", "mon.equals_repr_when_fits", "mon.layout", "mon.cycle", "mon.max_length",
+REQUIRED = ["mon.pretty_renderable", "mon.node_rerendered", "mon.eval_back", "mon.equals_repr_when_fits", "mon.layout", "mon.cycle", "mon.max_length",
             "mon.max_string"]
 MIN_NONTRIVIAL = {"quick": 3000, "thorough": 150000}
 
@@ -214,6 +214,18 @@ def wl_values(ctx, rng, case_no):
             node.render(**kw0) if rng.random() < 0.5 else pretty_repr(node, **kw0)
         out = pretty_repr(node, max_width=max_width, indent_size=indent_size, expand_all=expand_all)
         ctx.count("mon.node_rerendered")
+    elif rng.random() < 0.15:
+        # the renderable: Pretty(value) rendered by a console that has max_width cells (wrapping and cropping off, so
+        # the lines are the pretty string's own)
+        from rich.pretty import Pretty
+        from rv.gen import specs as SP
+        from rv.model import consoles
+        route = "Pretty-renderable"
+        _, plines = SP.render_lines_cells(consoles.layout_console(max_width),
+                                          Pretty(v, indent_size=indent_size, expand_all=expand_all, no_wrap=True,
+                                                 overflow="ignore"))
+        out = "\n".join(plines)
+        ctx.count("mon.pretty_renderable")
     else:
         out = pretty_repr(v, max_width=max_width, indent_size=indent_size, expand_all=expand_all)
     wit = {"value": repr(v)[:1500], "max_width": max_width, "indent_size": indent_size,
@@ -221,7 +233,8 @@ def wl_values(ctx, rng, case_no):
     if route != "value":
         fresh = pretty_repr(v, max_width=max_width, indent_size=indent_size, expand_all=expand_all)
         if fresh != out:
-            ctx.violation("rendering-a-traversed-node-depends-on-its-earlier-renders", dict(wit, fresh=fresh[:2500]))
+            ctx.violation("rendering-a-traversed-node-depends-on-its-earlier-renders" if route.startswith("traversed")
+                          else "Pretty-renderable-differs-from-pretty_repr", dict(wit, fresh=fresh[:2500]))
     # 1. evaluates back
     ctx.count("mon.eval_back")
     src = _CLASS.sub(r"\1", out)
